@@ -40,6 +40,8 @@ CONSTANTS
   MDynAlways,     \* TRUE: a solution without a file writes its per-step dynamics whether or not there are probe points
   MTransformRebuilds,  \* TRUE: a transformation of a meshed object leaves a mesh whose every derived array belongs to the
                        \* transformed triangulation (FALSE, mutant: the Voronoi polygons keep their old position)
+  MBrowseRereads, \* TRUE: setting solve_step on a loaded Solution reads every array of that step from the file (FALSE, mutant:
+                  \* the disorder parameter of the step loaded first is kept)
   MMemoByPath     \* TRUE (mutant): the reader memoises what it loaded by path and serves it again (FALSE: cache-free reader)
 
 VARIABLES kind, shape, saved,
@@ -48,9 +50,10 @@ VARIABLES kind, shape, saved,
           memo,     \* what a memoising reader remembers for the path (first thing it loaded); unused by a cache-free reader
           recomp,   \* the mesh recomputed from the triangulation (sites, elements) of the object that is saved:
                     \* what Mesh.from_triangulation gives for it (NoMesh when the object has no mesh)
+          cursor,   \* browsing ONE loaded Solution with solve_step = k: [k, idx (1-based position of the step in the file), frame]
           gen       \* generation: 1 = first object saved under the path, 2 = after the file was removed and the
                     \* path re-used for another object of the same shape (same array shapes, other content)
-vars == <<kind, shape, saved, file, loaded, pc, memo, recomp, gen>>
+vars == <<kind, shape, saved, file, loaded, pc, memo, recomp, cursor, gen>>
 
 SeqToSet(s) == {s[n] : n \in 1..Len(s)}
 -----------------------------------------------------------------------------
@@ -157,7 +160,10 @@ MeshLoadOf(fl, sv) ==
 \* modes: to_hdf5 to a new path (the output file is copied) | in place | after the output file was deleted |
 \* a solution produced with output_file=None (its temporary file is gone when solve() returns).
 \* probes / screening decide which per-step records exist (mu, theta at the probe points; screening_iterations)
-SolShapes == [mode : {"copy", "inplace", "deleted", "nofile", "solved"}, nframes : 1..4, cur : 1..4, probes : BOOLEAN, screening : BOOLEAN]
+\* dyn: which inputs of the run depend on time, so that every frame stores its own array of them:
+\*   "none" | "eps" (disorder_epsilon(r, *, t), a plain function) | "A" (time-dependent applied vector potential) | "both"
+SolShapes == {s \in [mode : {"copy", "inplace", "deleted", "nofile", "solved"}, nframes : 1..4, cur : 1..4, probes : BOOLEAN,
+                      screening : BOOLEAN, dyn : {"none", "eps", "A", "both"}] : s.dyn # "none" => (s.probes /\ ~s.screening)}
 \* "solved": the file tdgl.solve itself wrote under output_file.  solve() returns the last step.
 SolOK(s) == s.cur <= s.nframes /\ (s.mode \in {"nofile", "solved"} => s.cur = s.nframes)
 NoFile(s) == s.mode \in {"deleted", "nofile"}
@@ -183,7 +189,7 @@ SolExpected(s, sv) == [sv EXCEPT !.frames = IF NoFile(s) THEN <<sv.frames[s.cur]
 -----------------------------------------------------------------------------
 Nothing == [none |-> TRUE]
 Init == /\ kind \in Kinds /\ pc = "choose" /\ shape = (IF kind = "options" THEN OptDefault ELSE Nothing)
-        /\ saved = Nothing /\ file = Nothing /\ loaded = Nothing /\ memo = Nothing /\ recomp = NoMesh /\ gen = 1
+        /\ saved = Nothing /\ file = Nothing /\ loaded = Nothing /\ memo = Nothing /\ recomp = NoMesh /\ cursor = Nothing /\ gen = 1
 
 \* enumeration of the records, one field at a time (fields in declaration order, so every record is reached once)
 Deviate == /\ pc = "choose" /\ kind = "options" /\ Cardinality(Deviating(shape)) < MaxDev
@@ -191,11 +197,11 @@ Deviate == /\ pc = "choose" /\ kind = "options" /\ Cardinality(Deviating(shape))
                 /\ \A g \in Deviating(shape) : Idx(g) < Idx(f)
                 /\ SampledRec([shape EXCEPT ![f] = v])
                 /\ shape' = [shape EXCEPT ![f] = v]
-           /\ UNCHANGED <<kind, saved, file, loaded, pc, memo, recomp, gen>>
+           /\ UNCHANGED <<kind, saved, file, loaded, pc, memo, recomp, gen, cursor>>
 Shape == /\ pc = "choose" /\ kind # "options" /\ shape = Nothing
          /\ shape' \in (CASE kind = "device" -> DeviceShapes [] kind = "mesh" -> MeshShapes
                           [] kind = "solution" -> {s \in SolShapes : SolOK(s)})
-         /\ UNCHANGED <<kind, saved, file, loaded, pc, memo, recomp, gen>>
+         /\ UNCHANGED <<kind, saved, file, loaded, pc, memo, recomp, gen, cursor>>
 \* the object exists (built by the binding; symbolic identities in the model-checking runs)
 SymSaved == CASE kind = "options" -> shape [] kind = "device" -> SymDevice(shape, gen)
               [] kind = "mesh" -> SymHeldMesh(shape, gen) [] kind = "solution" -> SymSolution(shape, gen)
@@ -204,12 +210,12 @@ SymRecomp == CASE kind = "device" -> (IF shape.mesh THEN SymMeshG(gen) ELSE NoMe
 \* (also: after the file was removed, ANOTHER object of the same shape is about to be saved under the same path)
 Materialise(sv, rc) == /\ pc \in {"choose", "removed"} /\ shape # Nothing
                        /\ saved' = sv /\ recomp' = rc /\ pc' = "made"
-                       /\ UNCHANGED <<kind, shape, file, loaded, memo, gen>>
+                       /\ UNCHANGED <<kind, shape, file, loaded, memo, gen, cursor>>
 Save == /\ pc = "made"
         /\ file' = (CASE kind = "options" -> OptFileOf(saved) [] kind = "device" -> DeviceFileOf(shape, saved)
                       [] kind = "mesh" -> MeshFileOf(shape, saved) [] kind = "solution" -> SolFileOf(shape, saved))
         /\ pc' = "saved"
-        /\ UNCHANGED <<kind, shape, saved, loaded, memo, recomp, gen>>
+        /\ UNCHANGED <<kind, shape, saved, loaded, memo, recomp, gen, cursor>>
 \* a cache-free reader answers from the file alone
 Fresh == CASE kind = "options" -> OptLoadOf(file) [] kind = "device" -> DeviceLoadOf(file)
            [] kind = "mesh" -> MeshLoadOf(file, saved) [] kind = "solution" -> SolLoadOf(file, saved)
@@ -217,14 +223,24 @@ Load == /\ pc = "saved"
         /\ loaded' = IF MMemoByPath /\ memo # Nothing THEN memo ELSE Fresh
         /\ memo' = IF memo = Nothing THEN Fresh ELSE memo
         /\ pc' = "loaded"
-        /\ UNCHANGED <<kind, shape, saved, file, recomp, gen>>
+        /\ UNCHANGED <<kind, shape, saved, file, recomp, gen, cursor>>
 \* the file is removed (os.remove / Solution.delete_hdf5); the path is free for the next object
+\* browsing the steps of ONE loaded Solution: solve_step = 0 is the first recorded step, k > 0 the step k, k < 0 counts from
+\* the last one.  The object then shows the data the FILE holds for that step.
+BrowseIdx(k) == LET n == Len(file.frames) IN IF k < 0 THEN n + k + 1 ELSE k + 1
+Browse(k) == /\ pc = "loaded" /\ kind = "solution"
+             /\ LET n == Len(file.frames) IN k \in (-n)..(IF NoFile(shape) THEN 0 ELSE n - 1)
+             /\ cursor' = [k |-> k, idx |-> BrowseIdx(k),
+                           frame |-> IF MBrowseRereads \/ shape.dyn \notin {"eps", "both"} \/ cursor = Nothing THEN file.frames[BrowseIdx(k)]
+                                     ELSE 0]     \* (mutant: the step's data with the disorder parameter of another step - no recorded step)
+             /\ UNCHANGED <<kind, shape, saved, file, loaded, pc, memo, recomp, gen>>
 Remove == /\ pc = "loaded" /\ gen = 1 /\ kind # "options"
-          /\ file' = Nothing /\ gen' = 2 /\ pc' = "removed"
+          /\ file' = Nothing /\ gen' = 2 /\ pc' = "removed" /\ cursor' = Nothing
           /\ UNCHANGED <<kind, shape, saved, loaded, memo, recomp>>
 
 MMaterialise == Materialise(SymSaved, SymRecomp)
-Next == Deviate \/ Shape \/ MMaterialise \/ Save \/ Load \/ Remove
+MBrowse == pc = "loaded" /\ \E k \in -4..3 : Browse(k)
+Next == Deviate \/ Shape \/ MMaterialise \/ Save \/ Load \/ MBrowse \/ Remove
 Spec == Init /\ [][Next]_vars
 
 -----------------------------------------------------------------------------
@@ -254,6 +270,9 @@ MeshRestoredEqualsRecomputed ==
                                          /\ loaded.recomputed <=> ~Restorable(file)
   /\ (pc = "loaded" /\ kind = "device" /\ shape.savemesh) => loaded.mesh = recomp
   /\ (pc = "loaded" /\ kind = "solution") => loaded.mesh = recomp
+
+\* every step shown while browsing one Solution is the step the file holds (forwards, backwards, negative indices)
+BrowsedStepIsRecordedStep == cursor # Nothing => cursor.frame = file.frames[cursor.idx]
 
 \* export of the enumerated records / shapes (materialised by the binding with the real classes)
 Emit == (pc = "made" /\ gen = 1) => PrintT(ToJson([kind |-> kind, shape |-> shape]))
